@@ -146,6 +146,177 @@ fn euler<S: Sc>(items: usize, dim: usize) {
     }
 }
 
+fn axpy<S: Sc>(y: &[S], h: S, k: &[S]) -> Vec<S> {
+    y.iter().zip(k).map(|(a, b)| *a + h * *b).collect()
+}
+
+fn all_close<S: Sc>(a: &[S], b: &[S], eps: S) -> S::Bl {
+    let mut c = S::b_const(true);
+    for (x, y) in a.iter().zip(b) {
+        c = S::b_and(c, S::b_close(*x, *y, eps));
+    }
+    c
+}
+
+/// is `item` one classical RK4 step from `prev`, with all four stage derivatives found in the call log?
+pub fn rk4_step_ok<S: Sc>(calls: &[Call<S>], prev: &(S, Vec<S>), item: &(S, Vec<S>)) -> Option<S::Bl> {
+    let h = item.0 - prev.0;
+    let half = S::rat(1, 2);
+    let k1 = lookup(calls, prev.0, &prev.1)?;
+    let k2 = lookup(calls, prev.0 + half * h, &axpy(&prev.1, half * h, &k1))?;
+    let k3 = lookup(calls, prev.0 + half * h, &axpy(&prev.1, half * h, &k2))?;
+    let k4 = lookup(calls, prev.0 + h, &axpy(&prev.1, h, &k3))?;
+    let ynew: Vec<S> = (0..prev.1.len()).map(|d| prev.1[d] + h * S::rat(1, 6) * (k1[d] + S::lit(2.0) * k2[d] + S::lit(2.0) * k3[d] + k4[d])).collect();
+    Some(all_close(&item.1, &ynew, S::lit(1e-9)))
+}
+
+pub fn adams_coeffs(kind: Kind) -> (Vec<(i64, i64)>, Vec<(i64, i64)>) {
+    // (Adams-Bashforth weights newest first, Adams-Moulton weights implicit first)
+    match kind {
+        Kind::Adams5 => (vec![(55, 24), (-59, 24), (37, 24), (-9, 24)], vec![(251, 720), (646, 720), (-264, 720), (106, 720), (-19, 720)]),
+        _ => (vec![(3, 2), (-1, 2)], vec![(5, 12), (8, 12), (-1, 12)]),
+    }
+}
+
+/// Adams: every yielded point is a classical RK4 step from the previous point, or the
+/// AB-predict / AM-correct update of the preceding equally spaced points with estimate within tolerance.
+fn adams<S: Sc>(kind: Kind, items: usize, ratio: f64) {
+    let (ab, am) = adams_coeffs(kind);
+    let s = ab.len(); // number of preceding points used
+    let c = conf_inputs::<S>(1, YB);
+    assume_valid(&c);
+    S::assume(S::b_le(c.dt_max, c.dt_min * S::lit(ratio)));
+    let log = new_log::<S>();
+    let run = run_d1(kind, &c, tape_rhs(log.clone(), VB, None), items, &log, 0);
+    let calls = log.borrow();
+    let eps = S::lit(1e-9);
+    let mut pts: Vec<(S, Vec<S>)> = vec![(c.t0, c.y0.clone())];
+    // predictor value of points certified as predictor-corrector steps (PEC history derivative)
+    let mut preds: Vec<Option<Vec<S>>> = vec![None];
+    for item in run.items.iter() {
+        let it = (item.t, item.y.clone());
+        let n = pts.len();
+        let prev = pts[n - 1].clone();
+        let mut ok = S::b_const(false);
+        if let Some(c1) = rk4_step_ok(&calls[..], &prev, &it) {
+            ok = S::b_or(ok, c1);
+        }
+        let mut this_pred: Option<Vec<S>> = None;
+        if n >= s {
+            let h = it.0 - prev.0;
+            let mut spaced = S::b_lt(S::lit(0.0), h);
+            for j in (n - s)..(n - 1) {
+                spaced = S::b_and(spaced, S::b_close(pts[j + 1].0 - pts[j].0, h, eps));
+            }
+            // two admissible history conventions: derivative at the corrected value (PECE) or at the predicted value (PEC)
+            for pec in [false, true] {
+                let mut fs: Vec<Vec<S>> = vec![]; // newest first
+                let mut complete = true;
+                for i in 0..s {
+                    let j = n - 1 - i;
+                    let mut v = None;
+                    if pec {
+                        if let Some(p) = &preds[j] {
+                            v = lookup(&calls[..], pts[j].0, p);
+                        }
+                    }
+                    if v.is_none() {
+                        v = lookup(&calls[..], pts[j].0, &pts[j].1);
+                    }
+                    match v {
+                        Some(v) => fs.push(v),
+                        None => {
+                            complete = false;
+                            break;
+                        }
+                    }
+                }
+                if !complete {
+                    continue;
+                }
+                let mut p = prev.1[0];
+                for i in 0..s {
+                    p = p + h * r::<S>(ab[i]) * fs[i][0];
+                }
+                let fi = match lookup(&calls[..], it.0, &[p]) {
+                    Some(v) => v,
+                    None => continue,
+                };
+                let mut cor = prev.1[0] + h * r::<S>(am[0]) * fi[0];
+                for i in 0..s {
+                    cor = cor + h * r::<S>(am[i + 1]) * fs[i][0];
+                }
+                let est_ok = S::b_le(S::rat(19, 270) * (cor - p).sabs(), c.tol * h * S::lit(1.0 + 1e-6));
+                let cand = S::b_and(spaced, S::b_and(S::b_close(it.1[0], cor, eps), est_ok));
+                ok = S::b_or(ok, cand);
+                this_pred = Some(vec![p]);
+            }
+        }
+        S::reach("adams/item");
+        S::prove("multistep/point-is-rk4-start-or-predictor-corrector-step", ok);
+        pts.push(it);
+        preds.push(this_pred);
+    }
+    if pts.len() > s + 1 {
+        S::reach("adams/beyond-startup");
+    }
+}
+
+pub fn bdf_coeffs(kind: Kind) -> (Vec<(i64, i64)>, (i64, i64)) {
+    // y_{n+1} + sum_j alpha_j y_{n+1-j} = beta h f(t_{n+1}, y_{n+1});  alpha newest first
+    match kind {
+        Kind::BDF6 => (vec![(-360, 147), (450, 147), (-400, 147), (225, 147), (-72, 147), (10, 147)], (60, 147)),
+        _ => (vec![(-4, 3), (1, 3)], (2, 3)),
+    }
+}
+
+/// BDF: every yielded point is a classical RK4 step from the previous point or satisfies the implicit
+/// BDF formula of the advertised order, evaluated at the new time, to within the solver tolerance.
+fn bdf<S: Sc>(kind: Kind, items: usize, seed: i64, member: usize, nonautonomous: bool) {
+    S::no_div_zero_forks();
+    let (alpha, beta) = bdf_coeffs(kind);
+    let s = alpha.len();
+    let log = new_log::<S>();
+    let (c, f, (a, b, cc)) = conf_family_opt::<S, nalgebra::Const<1>>(1, seed, member, log.clone(), nonautonomous);
+    S::assume(S::b_lt(c.t0, c.t1));
+    let run = run_d1(kind, &c, f, items, &log, 0);
+    let calls = log.borrow();
+    let fval = |t: S, y: S| S::lit(a) * y + S::lit(b) * t + S::lit(cc);
+    let eps = S::lit(1e-9);
+    let mut pts: Vec<(S, Vec<S>)> = vec![(c.t0, c.y0.clone())];
+    let mut n_bdf = 0;
+    for item in run.items.iter() {
+        let it = (item.t, item.y.clone());
+        let n = pts.len();
+        let prev = pts[n - 1].clone();
+        let mut ok = S::b_const(false);
+        if let Some(c1) = rk4_step_ok(&calls[..], &prev, &it) {
+            ok = S::b_or(ok, c1);
+        }
+        if n >= s {
+            let h = it.0 - prev.0;
+            let mut spaced = S::b_lt(S::lit(0.0), h);
+            for j in (n - s)..(n - 1) {
+                spaced = S::b_and(spaced, S::b_close(pts[j + 1].0 - pts[j].0, h, eps));
+            }
+            let mut res = it.1[0] - h * r::<S>(beta) * fval(it.0, it.1[0]);
+            for i in 0..s {
+                res = res + r::<S>(alpha[i]) * pts[n - 1 - i].1[0];
+            }
+            // the iteration stops when the update is below tol: residual <= |1 - beta h a| * tol
+            let lim = c.tol * (S::lit(1.0) + (h * r::<S>(beta) * S::lit(a)).sabs()) * S::lit(1.0 + 1e-6) + eps;
+            ok = S::b_or(ok, S::b_and(spaced, S::b_le(res.sabs(), lim)));
+            n_bdf += 1;
+        }
+        S::reach("bdf/item");
+        S::prove("multistep/point-is-rk4-start-or-satisfies-bdf-formula-at-new-time", ok);
+        pts.push(it);
+    }
+    if n_bdf > 0 && run.items.len() > kind.startup() {
+        S::reach("bdf/beyond-startup");
+    }
+}
+
 pub fn run(pr: &mut PropRun, t: &Tier) {
     pr.funcs(&[
         "ivp::Euler::{builder,solve}",
@@ -173,6 +344,23 @@ pub fn run(pr: &mut PropRun, t: &Tier) {
             let mut cfg = t.cfg(&format!("C03:rk({},items=1,D=2)", kind.name()));
             cfg.max_decisions = 24;
             run_h!(pr, cfg, rk, kind, 1, 1.3, 2);
+        }
+    }
+    for kind in [Kind::Adams3, Kind::Adams5] {
+        let n = kind.startup() + 2;
+        let mut cfg = t.cfg(&format!("C03:adams({},items={})", kind.name(), n));
+        cfg.max_decisions = 60;
+        run_h!(pr, cfg, adams, kind, n, ratio);
+    }
+    let members = if t.thorough { 6 } else { 2 };
+    for kind in [Kind::BDF2, Kind::BDF6] {
+        for m in 0..members {
+            for nonaut in [false, true] {
+                let n = kind.startup() + 2;
+                let mut cfg = t.cfg(&format!("C03:bdf({},items={},family={},{})", kind.name(), n, m, if nonaut { "nonautonomous" } else { "autonomous" }));
+                cfg.max_decisions = 400;
+                run_h!(pr, cfg, bdf, kind, n, t.seed, m, nonaut);
+            }
         }
     }
     run_h!(pr, t.cfg("C03:euler(items=4,D=1)"), euler, 4, 1);
